@@ -5,6 +5,7 @@ package gen
 
 import (
 	"fmt"
+	"strconv"
 	"strings"
 
 	"pgregory.net/rapid"
@@ -48,7 +49,15 @@ var AssignOps = []string{"=", "+=", "-="}
 var UnaryOps = []string{"-", "!", "++", "--"}
 var PostfixOps = []string{"++", "--"}
 
-func (r R) Ident() string { return Idents[r.Intn(len(Idents), "ident")] }
+// Ident draws an identifier: mostly from the small pool (so that names repeat
+// and shadow), sometimes a numbered one (so that programs with many distinct
+// names exist, e.g. for the source map's name table).
+func (r R) Ident() string {
+	if r.Intn(6, "numbered-ident") == 0 {
+		return "n" + strconv.Itoa(r.Intn(300, "identno"))
+	}
+	return Idents[r.Intn(len(Idents), "ident")]
+}
 
 // NumText draws a numeric literal spelling of a documented shape.
 func (r R) NumText() string {
